@@ -121,6 +121,8 @@ def run_fault(ps, w, menu, nerr=1, pinned=None):
     sticky = st["stick"] is not None
     bad = []
     nob = 0
+    observations = []
+    need_retry = False
     post = w.post()
     cases, exp = call.model(w, pre)
     if blocked:
@@ -136,10 +138,16 @@ def run_fault(ps, w, menu, nerr=1, pinned=None):
             bad.append(("C13:reported-success-where-the-fault-free-call-is-rejected", ""))
     else:
         if isinstance(call, (step.StoreObj, step.Tag)):
+            # "the pid is unbound and can be stored again at once (or its earlier binding is intact)"
             oku, _ = ps.valid(post["bind"][i] == pre["bind"][i])
             nob += 1
             if not oku:
-                bad.append(("C13:failed-call-left-pid-binding-changed", ""))
+                okn, _ = ps.valid(post["bind"][i] == -1)
+                if okn:
+                    need_retry = True          # earlier binding gone: acceptable only if it can be stored again at once
+                    observations.append("failed call removed the pid's earlier binding (pid unbound afterwards)")
+                else:
+                    bad.append(("C13:failed-call-left-pid-binding-changed", ""))
         if isinstance(call, step.StoreMeta):
             c = w.cell(call.f)
             okm, _ = ps.valid(post["meta"][i][c] == pre["meta"][i][c])
@@ -160,7 +168,7 @@ def run_fault(ps, w, menu, nerr=1, pinned=None):
     # retry at once (fault removed): a failed store/tag of an unbound pid must now succeed
     if res not in ("ok", "BLOCKED") and isinstance(call, (step.StoreObj, step.Tag)) and not getattr(call, "invalid", False):
         unbound, _ = ps.valid(pre["bind"][i] < 0)
-        if unbound:
+        if unbound or need_retry:
             try:
                 call.run(w, s)
             except WouldBlock as e:
@@ -192,7 +200,7 @@ def run_fault(ps, w, menu, nerr=1, pinned=None):
         w.shim.fs = F
     site = (st["hit"][1], addr_kind(st["hit"][2]))
     rec = dict(kind="fault", call=call.label, roles=call.roles, res=res, site=site, sticky=sticky, at=st["hit"][0],
-               err=_errno.errorcode.get(st["err"]), bad=bad, nob=nob, n=n,
+               err=_errno.errorcode.get(st["err"]), bad=bad, nob=nob, n=n, observations=observations,
                exc=(type(val).__name__ + ": " + str(val)[:120]) if isinstance(val, Exception) else None)
     if bad:
         rec["vals"] = ps.model_values(w.statevars + [step.CALLV, step.OFFV, FAULTV, STICKY, ERRV])
